@@ -17,6 +17,46 @@ func init() {
 	})
 }
 
+// c43Wait checks the wait for a pong inside f: a nil error is returned only
+// after a blocking receive from ch (this ping's own channel), and the case of
+// the context described by ctxDesc returns that context's Err(). Returns the
+// number of obligations generated.
+func c43Wait(c *engine.Ctx, name string, f *ssa.Function, ch ssa.Value, ctxDesc string) int {
+	n := 0
+	for _, r := range engine.Returns(f) {
+		v := engine.RetVal(r, 0)
+		if !engine.IsNil(v) {
+			continue
+		}
+		n++
+		ok := false
+		for _, rv := range recvsOf(f) {
+			if engine.Unwrap(rv.Chan) == engine.Unwrap(ch) && rv.Blocking && afterRecv(rv, r) {
+				ok = true
+			}
+		}
+		c.Check(ok, "C43.R2", name+"/success-return#"+ordinal(f, r), r.Pos(), "success may be reported only after the receive from this ping's own channel")
+	}
+	for _, sel := range selectsOf(f) {
+		for _, sc := range engine.SelectCases(sel) {
+			if sc.Send || !isDoneOf(sc.Chan, ctxDesc) || sc.Body == nil {
+				continue
+			}
+			n++
+			ok := true
+			for _, r := range engine.Returns(f) {
+				if sc.Body == r.Block() || sc.Body.Dominates(r.Block()) {
+					if engine.Describe(engine.RetVal(r, 0)) != "(context.Context).Err("+ctxDesc+")" {
+						ok = false
+					}
+				}
+			}
+			c.Check(ok, "C43.R2", name+"/context-case-returns-ctx-err", sel.Pos(), "when the context ends first the ping must fail with ctx.Err()")
+		}
+	}
+	return n
+}
+
 func c43(c *engine.Ctx) {
 	sp := c.SSA["mtproto"]
 	hp := c.MustFunc("C43.R1", "mtproto", "Conn.handlePong")
@@ -177,36 +217,35 @@ func c43(c *engine.Ctx) {
 			}
 		}
 		c.Check(rm, "C43.R2", name+"/registration-removed", reg.Pos(), "the registration must be removed on every exit (deferred removePong with the same id)")
+		n2 += c43Wait(c, name, fn, reg, "p:ctx")
+		// the wait may be a helper of the package called in tail position with this
+		// ping's channel and the caller's context (return awaitPong(ctx, pong)): the
+		// same two rules then apply inside the helper, over its parameters
 		for _, r := range engine.Returns(fn) {
-			v := engine.RetVal(r, 0)
-			if !engine.IsNil(v) {
+			hc := engine.CallOf(engine.RetVal(r, 0))
+			if hc == nil {
 				continue
 			}
-			n2++
-			ok := false
-			for _, rv := range recvsOf(fn) {
-				if engine.Unwrap(rv.Chan) == ssa.Value(reg) && rv.Blocking && afterRecv(rv, r) {
-					ok = true
+			h := hc.Common().StaticCallee()
+			if h == nil || len(h.Blocks) == 0 || h.Pkg != fn.Pkg {
+				continue
+			}
+			var chP, ctxP *ssa.Parameter
+			for k, a := range engine.Args(hc.Common()) {
+				if k >= len(h.Params) {
+					break
+				}
+				if engine.Unwrap(a) == ssa.Value(reg) {
+					chP = h.Params[k]
+				}
+				if engine.Describe(a) == "p:ctx" {
+					ctxP = h.Params[k]
 				}
 			}
-			c.Check(ok, "C43.R2", name+"/success-return#"+ordinal(fn, r), r.Pos(), "success may be reported only after the receive from this ping's own channel")
-		}
-		for _, sel := range selectsOf(fn) {
-			for _, sc := range engine.SelectCases(sel) {
-				if sc.Send || !isDoneOf(sc.Chan, "p:ctx") || sc.Body == nil {
-					continue
-				}
-				n2++
-				ok := true
-				for _, r := range engine.Returns(fn) {
-					if sc.Body == r.Block() || sc.Body.Dominates(r.Block()) {
-						if engine.Describe(engine.RetVal(r, 0)) != "(context.Context).Err(p:ctx)" {
-							ok = false
-						}
-					}
-				}
-				c.Check(ok, "C43.R2", name+"/context-case-returns-ctx-err", sel.Pos(), "when the context ends first the ping must fail with ctx.Err()")
+			if chP == nil || ctxP == nil {
+				continue
 			}
+			n2 += c43Wait(c, name+"/"+h.Name(), h, chP, "p:"+engine.ParamName(ctxP))
 		}
 	}
 	c.Floor("C43.R2", 6, n2)
@@ -214,7 +253,8 @@ func c43(c *engine.Ctx) {
 	// ---- R3
 	n3 := 0
 	if pl := c.MustFunc("C43.R3", "mtproto", "Conn.pingLoop"); pl != nil {
-		for _, f := range engine.WithAnon(pl) {
+		// (the ping may be sent from a closure of pingLoop or from a method it calls)
+		for _, f := range withHelpers(pl, 1) {
 			for _, call := range engine.CallsTo(f, false, "(*mtproto.Conn).pingDelayDisconnect", "(*mtproto.Conn).Ping") {
 				n3++
 				ok, d := false, engine.Describe(call.Common().Args[1])
@@ -224,8 +264,23 @@ func c43(c *engine.Ctx) {
 				c.Check(ok, "C43.R3", "pingLoop/ping-under-timeout", call.Pos(), "each keep-alive ping must run under context.WithTimeout(ctx, c.pingTimeout); its context is %s", d)
 				// disconnect delay announced = interval + timeout
 				if len(call.Common().Args) > 2 {
-					dd := descCell(call.Common().Args[2])
-					c.Check(strings.Contains(dd, "(p:c.pingInterval + p:c.pingTimeout)"), "C43.R3", "pingLoop/disconnect-delay", call.Pos(), "disconnect_delay must be pingInterval + pingTimeout (is %s)", dd)
+					delay := call.Common().Args[2]
+					// a parameter of the sending method: judged at its call(s) in pingLoop
+					vals := []ssa.Value{delay}
+					if _, isP := engine.Unwrap(delay).(*ssa.Parameter); isP && f.Parent() == nil && f != pl {
+						vals = nil
+						for _, site := range staticCallsOf(pl, f) {
+							if a := argOfParam(delay, site); a != nil {
+								vals = append(vals, a)
+							}
+						}
+					}
+					okD, dd := len(vals) > 0, ""
+					for _, v := range vals {
+						dd = descCell(v)
+						okD = okD && strings.Contains(dd, "(p:c.pingInterval + p:c.pingTimeout)")
+					}
+					c.Check(okD, "C43.R3", "pingLoop/disconnect-delay", call.Pos(), "disconnect_delay must be pingInterval + pingTimeout (is %s)", dd)
 				}
 			}
 		}
